@@ -77,6 +77,8 @@ func c16(c *Ctx) {
 	// ---- R16.W: the loop must not wait for itself ------------------------------------------------
 	r.Rule("R16.O", "a solicited answer finds its waiter: the request's waiter is registered before the request is written (an rpc_result dispatched in between returns 'not found', which the loop's default arm turns into a panic — the listed finding — so the window must not exist)", 2)
 	c.registerBeforeWrite("R16.O")
+	r.Rule("R16.L", "the waiter and hint tables are written only inside the exclusive Lock section of their mutex and read inside a Lock / RLock section (= R09.L filed under C16): a map written under RLock while the receive loop reads it ends the process with a fatal error no recover() stops", 8)
+	c.tableLocks("R16.L")
 	r.Rule("R16.M", "every mutex the repository's own code locks is given back on every path to a return (deferred Unlock, or an explicit one before the exit) and is not locked again while held: a handler that leaves the switch early with the lock held stops the loop at the next message of that kind", 10)
 	c.locksReleased("R16.M", c.repoFunctionsWithLocks())
 	r.Rule("R16.X", "no waiter channel is closed by the table or the receive path (a send on a closed channel panics in the receive goroutine)", 1)
